@@ -211,6 +211,40 @@ def oracle_batch_histories(ck, rng):
                          oracle="batch_history_average")
 
 
+CHILD = r"""
+import sys, hashlib, numpy as np
+from acryo import SubtomogramLoader, Molecules
+rng = np.random.default_rng(7)
+tomo = rng.normal(size=(20, 20, 20)).astype(np.float32)
+n = 12
+mol = Molecules(rng.uniform(6, 13, size=(n, 3)), features={"s": [["alpha", "beta", "gamma"][i % 3] for i in range(n)], "k": [i % 3 for i in range(n)]})
+ld = SubtomogramLoader(tomo, mol, order=1, output_shape=(4, 4, 4))
+out = []
+for by in ("s", "k"):
+    res = ld.groupby(by).average_split(n_set=2, seed=3)
+    for key in sorted(res.keys(), key=str):
+        out.append(f"{by}:{key}:" + hashlib.sha1(np.ascontiguousarray(np.asarray(res[key]), dtype=np.float32).tobytes()).hexdigest())
+h = ld.average_split(n_set=2, seed=3)
+out.append("loader:" + hashlib.sha1(np.ascontiguousarray(np.asarray(h), dtype=np.float32).tobytes()).hexdigest())
+print("\n".join(out))
+"""
+
+
+def oracle_reproducible_across_processes(ck):
+    """a given seed gives the same split in every interpreter process (string group keys included: str hashes are salted per process)"""
+    import subprocess, sys, os
+    outs = []
+    for hs in ("1", "2"):
+        env = dict(os.environ, PYTHONHASHSEED=hs)
+        r = subprocess.run([sys.executable, "-c", CHILD], capture_output=True, text=True, env=env, timeout=600)
+        outs.append(r.stdout.strip().splitlines() if r.returncode == 0 else [f"child failed: {r.stderr[-300:]}"])
+    ck.oracle_count("split_reproducible_across_processes", 1, 1)
+    if outs[0] != outs[1] or not outs[0] or outs[0][0].startswith("child failed"):
+        diff = [a.split(":")[:2] for a, b in zip(outs[0], outs[1]) if a != b][:4]
+        ck.violation(what=f"average_split(seed=3) gives different half maps in two interpreter processes (PYTHONHASHSEED 1 vs 2) for {diff or outs[0][:1]}",
+                     inp={"seed": 3, "n_set": 2}, key={"site": "split-reproducibility", "across": "processes"}, oracle="split_reproducible_across_processes")
+
+
 def run(ck: common.Check):
     ck.design_ref = "DESIGN.md §6 C09"
     ck.trusted_base = TB
@@ -225,6 +259,7 @@ def run(ck: common.Check):
     corr_averages(ck, rng)
     oracle_generic(ck, rng)
     oracle_batch_histories(ck, rng)
+    oracle_reproducible_across_processes(ck)
 
 
 def replay(data):
